@@ -37,6 +37,28 @@ add("C06", "harness", "exploration", "property-based testing with fault injectio
     "Widest domain: soups, mutated and out-of-domain inputs, refusing policies, one-byte chunks, injected read/seek errors (one-shot and sticky), calls after errors and after end, set iteration after failed fills. Validity predicate: no panic, no livelock (deterministic step budget), every record handed out or held by a set is a record of the input, in file order.",
     "trusted: the lenient record list of the model (most permissive), the step budget as livelock detector; a livelock that never touches the source is only caught by the outer watchdog (exit 2)")
 
+add("C10", "harness", "exploration", "property-based testing: round trip through the parser + raw-byte wrap predicate + whole-vs-chunked differential (proptest) + exhaustive small scope over all chunkings",
+    "Generated headers/sequences/chunkings/wrap widths through all 11 FASTA writer entry points, written back to back and parsed again; wrap widths checked on the raw bytes; whole vs chunked byte equality. Exhaustive for sequence length <= 8, wrap <= 9, every cut set.",
+    "trusted: the crate's own FASTA reader as inverse (its correctness is C01's subject); bounded lengths (<= 200)")
+add("C11", "harness", "exploration", "property-based testing: round trip (write -> parse) and inverse (parse -> write_unchanged -> byte comparison against model extents) over generated documents (proptest)",
+    "FASTQ field round trip through 4 entry points; write_unchanged compared byte-for-byte with each record's extent from the reference model (LF added iff the model says the last line is unterminated), FASTA counterpart up to trailing CR/LF normalisation and re-parse to the identical record; capacities and chunkings vary so records straddle refills.",
+    MODEL_NOTE)
+add("C12", "harness", "exploration", "metamorphic property-based testing: one generated structure rendered with LF and with CRLF / per-line mixtures, outcomes compared (proptest) + exhaustive tiny structures",
+    "Metamorphic relation LF vs CRLF (FASTA: also per-line mixtures), with/without final terminator, two capacities, three read modes; additionally both renderings must parse back to the generating structure, so an error appearing or disappearing on both sides is seen too. Exhaustive over tiny structures x capacities 3..12.",
+    "trusted: the renderer in harness/src/props/c12.rs; well-formed = what it renders")
+add("C13", "harness", "exploration", "property-based testing: algebraic relations between accessors, three observations of every record (proptest)",
+    "Relations between all accessors of every record of generated inputs (incl. non-UTF-8, empty headers, repeated spaces, empty lines), observed as borrowed record, owned copy and record-set copy.",
+    "no model; bounded input sizes")
+add("C17", "harness", "exploration", "property-based testing: generated malformed inputs with the defect at every record index and buffer alignment, error fields against the reference model (proptest)",
+    "Every format error's variant, line, found byte, lengths and id compared with the capacity-free reference model for defects at generated record indices and capacities aimed at the offending group's offset; Display output must contain the values.",
+    MODEL_NOTE)
+add("C19", "harness", "exploration", "property-based testing: serialisation round trip (serde_json) of owned records with arbitrary bytes and of reused record sets (proptest)",
+    "deserialize(serialize(x)) compared through every accessor, for owned records with arbitrary bytes and for a reused record set after every (plain / exact) fill, including sets carrying stale offsets and sets after end / error.",
+    "serde_json only (self-describing); binary serde formats not exercised")
+add("C20", "harness", "exploration", "model-based property testing: generated front/back step programs and adaptor programs against a Vec-with-two-indices model (proptest) + exhaustive step lists",
+    "SeqLines stepped from both ends with len()/size_hint() queried after every step and compared with a two-index Vec model; adaptor programs compared with the same adaptors over the model; record-set and owned-record iterators walked past the end. Exhaustive for all step lists <= 8 on 0..5 lines.",
+    "the Vec model is the definition of the iterator contracts")
+
 NOT_YET = "check under construction (framework being built); will be claimed once its command exists"
 
 def main():
